@@ -277,7 +277,7 @@ def metricOf (unit : Str) : Str :=
 /-- `fmt.Sprintf("%.{p}f")` / `"%+.{p}f"` -/
 def fmtF (plus : Bool) (x : Bits) (p : Nat) : String :=
   if isNaN x then (if plus then "+NaN" else "NaN")
-  else if isInf x then (if signBit x then "-Inf" else if plus then "+Inf" else "Inf")
+  else if isInf x then (if signBit x then "-Inf" else "+Inf")
   else if signBit x then fmtFixed x p
   else (if plus then "+" else "") ++ fmtFixed x p
 
